@@ -89,7 +89,7 @@ def run(db, chk) -> None:
 
     hook = PathHook()
     I = Interp(db, call_hook=hook)
-    runs = I.explore(ref, lambda I: (hook.reset(), {"trace_df": Frame(TR)})[1], lambda I: {"sym_table": T.P("sym_table")})
+    runs = I.explore(ref, lambda I: (hook.reset(), {"trace_df": Frame(TR)})[1], lambda I: {"sym_table": T.P("sym_table"), "cls": Obj("cls", cls=(m, "CommunicationAnalysis"))})
     chk.analysed_add("functions", ref)
     # the hook is reset at the start of every path; collect the merge calls per path from the event log instead
     good = [r for r in runs if r.raised is None]
